@@ -5,6 +5,7 @@ CONSTANTS
   Segs <- SegsQuick
   Depth = 0
   Mode = "fixed"
+  StopAtOOR = FALSE
   CowAlphabet = {}
   CowMaxLen = 0
 CONSTRAINT Track
